@@ -166,12 +166,42 @@ class Driver:
 
 # ----------------------------------------------------------------------------- anchored-line coverage
 
+def resolve_qualname(path, qual):
+    """(first line, last line) of the def/class `A.b.c` in the file, or None"""
+    import ast
+    try:
+        tree = ast.parse(open(path).read())
+    except Exception:
+        return None
+    node = tree
+    for part in qual.split("."):
+        nxt = None
+        for ch in getattr(node, "body", []):
+            if isinstance(ch, (ast.FunctionDef, ast.AsyncFunctionDef, ast.ClassDef)) and ch.name == part:
+                nxt = ch; break
+        if nxt is None:
+            return None
+        node = nxt
+    first = min([node.lineno] + [d.lineno for d in getattr(node, "decorator_list", [])])
+    return (first, node.end_lineno)
+
+
 class AnchorCoverage:
     """sys.settrace line tracer restricted to the anchored files/line ranges of a property (DESIGN §1 step 4)."""
     def __init__(self, anchors):
         # anchors: list of (path relative to repo, first line, last line) ; (path, None, None) = whole file
+        #          (path, "Class.method" | "function") = that definition, resolved on the current source (robust to line shifts)
         self.ranges = {}
-        for rel, a, b in anchors:
+        self.unresolved = []
+        for anc in anchors:
+            rel = anc[0]
+            if len(anc) >= 2 and isinstance(anc[1], str):
+                r = resolve_qualname(os.path.join(REPO, rel), anc[1])
+                if r is None:
+                    self.unresolved.append("%s:%s" % (rel, anc[1])); continue
+                a, b = r
+            else:
+                a, b = anc[1], anc[2]
             self.ranges.setdefault(os.path.join(REPO, rel), []).append((a or 1, b or 10 ** 9))
         self.hit = set()
         self.executable = set()
@@ -205,6 +235,7 @@ class AnchorCoverage:
         missed = sorted(ex - hit)
         return {"anchored_executable_lines": len(ex), "anchored_lines_hit": len(hit),
                 "anchored_line_coverage_pct": round(100.0 * len(hit) / len(ex), 1) if ex else None,
+                "unresolved_anchors": self.unresolved,
                 "uncovered_sample": ["%s:%d" % (os.path.relpath(p, REPO), l) for p, l in missed[:25]]}
 
 
